@@ -75,6 +75,32 @@ func (o *Obligation) script() string {
 		ng := b.Not(o.Goal)
 		sl := sliceHyps(hyps, ng)
 		asserts = append(sl, ng)
+		// cheapest attempt: no quantified hypothesis at all (dropping
+		// hypotheses is sound for an unsat answer; other answers are ignored)
+		qmemo := map[*Term]bool{}
+		if !hasQuant(ng, qmemo) {
+			var qf []*Term
+			dropped := false
+			for _, h := range hyps {
+				if !hasQuant(h, qmemo) {
+					qf = append(qf, h)
+					continue
+				}
+				dropped = true
+				// weaken instead of dropping: quantified subformulas become
+				// true (positive positions) or false (negative positions)
+				if w, ok := weakenQ(b, h, true, qmemo); ok && !w.IsTrue() {
+					qf = append(qf, w)
+				}
+			}
+			if dropped {
+				qsl := sliceHyps(qf, ng)
+				o.smtQF, _ = b.Script(append(qsl, ng), nil, nil)
+				if d := os.Getenv("GOVC_DUMPQF"); d != "" && strings.Contains(o.Name, d) {
+					os.WriteFile("/var/tmp/qf.smt2", []byte(o.smtQF), 0o644)
+				}
+			}
+		}
 		if len(sl) < len(hyps) {
 			// keep the unsliced query as a fallback (an infeasible path may
 			// only be refutable with hypotheses unrelated to the goal)
@@ -247,9 +273,90 @@ func parseModel(out string) map[string]string {
 }
 
 // solve discharges one obligation with the portfolio.
+func hasQuant(t *Term, memo map[*Term]bool) bool {
+	if v, ok := memo[t]; ok {
+		return v
+	}
+	r := t.Op == "forall" || t.Op == "exists"
+	if !r {
+		for _, a := range t.Args {
+			if hasQuant(a, memo) {
+				r = true
+				break
+			}
+		}
+	}
+	memo[t] = r
+	return r
+}
+
+// weakenQ returns a quantifier-free consequence of t (when pos) or a
+// quantifier-free formula implied by... precisely: pos => (t implies result),
+// !pos => (result implies t). ok is false when no such formula is built.
+func weakenQ(b *TermBank, t *Term, pos bool, qmemo map[*Term]bool) (*Term, bool) {
+	if !hasQuant(t, qmemo) {
+		return t, true
+	}
+	switch t.Op {
+	case "forall", "exists":
+		return b.Bool(pos), true
+	case "not":
+		w, ok := weakenQ(b, t.Args[0], !pos, qmemo)
+		if !ok {
+			return nil, false
+		}
+		return b.Not(w), true
+	case "and", "or":
+		var ws []*Term
+		for _, a := range t.Args {
+			w, ok := weakenQ(b, a, pos, qmemo)
+			if !ok {
+				return nil, false
+			}
+			ws = append(ws, w)
+		}
+		if t.Op == "and" {
+			return b.And(ws...), true
+		}
+		return b.Or(ws...), true
+	case "=>":
+		l, ok1 := weakenQ(b, t.Args[0], !pos, qmemo)
+		r, ok2 := weakenQ(b, t.Args[1], pos, qmemo)
+		if !ok1 || !ok2 {
+			return nil, false
+		}
+		return b.Or(b.Not(l), r), true
+	case "ite":
+		if t.Sort == BoolSort && !hasQuant(t.Args[0], qmemo) {
+			x, ok1 := weakenQ(b, t.Args[1], pos, qmemo)
+			y, ok2 := weakenQ(b, t.Args[2], pos, qmemo)
+			if ok1 && ok2 {
+				return b.Ite(t.Args[0], x, y), true
+			}
+		}
+	}
+	return nil, false
+}
+
 func solve(o *Obligation, cfg *SolverCfg, idx int) {
 	if o.done {
 		return
+	}
+	if !o.Cover && o.smtQF != "" {
+		qcfg := *cfg
+		qcfg.Timeout = 2 * time.Second
+		qcfg.quickOnly = true
+		keepSmt, keepLogic := o.smt, o.logic
+		o.smt, o.logic = o.smtQF, ""
+		o.smtQF = ""
+		solve1(o, &qcfg, idx)
+		if o.Status == "unsat" {
+			o.Solver += "(qf)"
+			o.smtFull = ""
+			return
+		}
+		o.Status, o.Model, o.Solver, o.Output, o.smtKeep = "", nil, "", "", ""
+		o.smt, o.logic = keepSmt, keepLogic
 	}
 	if !o.Cover && o.smtFull != "" {
 		// quick attempts first: sliced, then full (slicing can drop a needed
